@@ -160,7 +160,7 @@ def cases(tier, seed):
         for k, v in variants(n):
             yield {"kind": "state", "cls": n, "dseed": seed, "variant": [k, v]}
     rng = np.random.default_rng([seed, 4])
-    for i in range(60 if tier == "quick" else 600):
+    for i in range(60 if tier == "quick" else 4000):
         spec = None
         for _ in range(30):
             spec = zoo.random_spec(rng, depth=3 if i % 2 else 2)
@@ -168,7 +168,7 @@ def cases(tier, seed):
                 break
         yield {"kind": "nested", "spec": spec, "pick": int(rng.integers(0, 10 ** 6))}
     # heterogeneous meta-estimators over (name, estimator, columns) triples, with entries that are the string 'drop'
-    for i in range(40 if tier == "quick" else 400):
+    for i in range(40 if tier == "quick" else 4000):
         k = int(rng.integers(2, 5))
         yield {"kind": "nested-columns", "which": ["colens", "coltrans"][i % 2], "entries": ["drop" if rng.random() < 0.3 else "est" for _ in range(k)],
                "ops": [[["replace", "drop", "set", "undrop"][int(rng.integers(0, 4))], int(rng.integers(0, k))] for _ in range(int(rng.integers(1, 5)))]}
